@@ -603,8 +603,9 @@ line_address			(struct frame *		f,
 			return VBI_ERR_DU_LINE_NUMBER;
 		}
 
-		if (0 == f->last_data_unit_id) {
-			/* Nothing to do. */
+		if (f->sp == f->sliced_begin) {
+			/* First line of this frame, there is no
+			   previous field to compare with. */
 		} else if (field != f->last_field) {
 			if (0 == f->n_data_units_extracted_from_packet)
 				return -1; /* new frame */
